@@ -47,7 +47,11 @@ func WarpTargetFullType(targetType string) (string, string) {
 	pureTargetType := strings.ReplaceAll(strings.ReplaceAll(str, "[", ""), "]", "")
 
 	if pureTargetType != "" {
-		for _, imp := range imports {
+		for i, imp := range imports {
+			// `import static a.b.C.*;` brings the static members of C into scope, not C itself
+			if staticOnDemandImports[i] {
+				continue
+			}
 			if imp == pureTargetType || strings.HasSuffix(imp, "."+pureTargetType) {
 				callType = "chain"
 				return imp, callType
